@@ -151,3 +151,11 @@ def classify(rec, verdict):
     if verdict.startswith("model:") or verdict.startswith("inexact:"):
         return "drift"
     return "violation"
+
+
+def run(ctx):
+    import sys
+
+    from harness import yee_sys as Y
+
+    Y.pipeline(sys.modules[__name__], ctx)
